@@ -45,7 +45,7 @@ pub fn run(cfg: RunCfg) {
     vh_core::section!(
         rep,
         "history",
-        (40_000, 1_200_000),
+        (30_000, 1_000_000),
         16,
         "1..=60 ops (add 38%, status update 17%, clean-up 7%, flush 12%, write+load 3%, load 6%, plant real-format file 11%, plant corrupt 3%, new store 2%, sorted 1%) over a pool of 3..=8 peers x 4 slots x 29 multiaddr shapes; max_peers 1..=6, max_addrs 1..=3, expiry 1h/24h. non-trivial: a flush that merges non-empty memory with a non-empty planted real-format file AND a limit was hit (add at capacity or merge over a limit); distinct by case",
         history::strategy,
